@@ -14,3 +14,7 @@ SPEC = dc.spec(
     design_ref="§6 C35",
     rule=dc.RULE + "  C35: every history ends with a shutdown step; half of them have checkpoints/rotations before it; only the "
                    "final image is explored (one prefix per history).")
+
+
+def run(ctx, replay):
+    return dc.run_check(SPEC, ctx, replay)
